@@ -286,7 +286,7 @@ def check_c04(exe, tier, seed, verdict):
     return cov
 
 
-KINDS = ["value", "quoted", "key", "section", "contline", "cbefore", "cafter", "joined", "lastline", "lastcont"]     # (last two: the last line of a file without final newline)
+KINDS = ["value", "quoted", "key", "section", "contline", "cbefore", "cafter", "cbefore3", "cafter3", "joined", "lastline", "lastcont"]     # (last two: the last line of a file without final newline)
 
 
 def check_c14(exe, tier, seed, verdict):
@@ -429,7 +429,7 @@ def check_c14(exe, tier, seed, verdict):
         verdict.violation("C14:%s:%s" % (e["kind"], e["api"].replace(" ", "")), {"kind": "long", "event": e, "spec": x["spec"]},
                           "%s of %d bytes through %s: %s, %d bytes came back, head intact %s, tail intact %s" % (e["kind"], e["len"], e["api"], e["rc"], e["out_len"], e["head_ok"], e["tail_ok"]))
     cov = {"evaluations": len(events), "distinct_nontrivial": nn,
-           "rule": "field kinds {value, quoted value, key, section name, continuation line, comment before, comment after, second definition joined under JOIN_SAME_ENTRIES, value / continuation on the last line of a file that does not end with a newline} x lengths {EVERY length 1..%d and BUFSIZ-70..BUFSIZ+70%s, 2*BUFSIZ, 64 Ki, %s} through: econf_readFile, plain / extended getters, listings, econf_mergeFiles + getters, econf_writeFile + econf_readFile + getters, and the setters; file names of 6..256 bytes read directly and as drop-in; MAIN file names of 12..256 bytes (with suffix) through econf_readDirs, econf_readConfig and econf_readDirsHistory; paths of 200 and PATH_MAX-3 .. PATH_MAX+2 bytes; option strings of 8 Ki .. 70 Ki; drop-in directory postfix lists whose entries differ in length (2 .. 243 bytes) in every order, as process-wide list and as CONFIG_DIRS; ROOT_PREFIX values of 60 .. 3000 bytes with files in the vendor, /run and /etc layer below them; PARSING_DIRS lists of 2..12 directories of 300..2000 bytes each (up to 8400 bytes as a whole) with a drop-in in every one. The field carries distinct head and tail markers; Envelope!TLong requires out_len = len and both markers (names beyond NAME_MAX / PATH_MAX: an error code, no crash). Every kind once more at 64 Ki and 1 Mi on a thread with a 256 KiB stack (uninstrumented build), plus 20 entries with two 10000-byte comments each, written and read back there. non-trivial = length >= BUFSIZ-2." % (330 if tier == "quick" else 1099, "" if tier == "quick" else ", around 2*BUFSIZ and 64 Ki", "1 Mi" if tier == "thorough" else "200000"),
+           "rule": "field kinds {value, quoted value, key, section name, continuation line, comment before, comment after, comment block of three lines before, comment pieces behind the three lines of a value, second definition joined under JOIN_SAME_ENTRIES, value / continuation on the last line of a file that does not end with a newline} x lengths {EVERY length 1..%d and BUFSIZ-70..BUFSIZ+70%s, 2*BUFSIZ, 64 Ki, %s} through: econf_readFile, plain / extended getters, listings, econf_mergeFiles + getters, econf_writeFile + econf_readFile + getters, the object itself once more after it was written, and the setters; file names of 6..256 bytes read directly and as drop-in; MAIN file names of 12..256 bytes (with suffix) through econf_readDirs, econf_readConfig and econf_readDirsHistory; paths of 200 and PATH_MAX-3 .. PATH_MAX+2 bytes; option strings of 8 Ki .. 70 Ki; drop-in directory postfix lists whose entries differ in length (2 .. 243 bytes) in every order, as process-wide list and as CONFIG_DIRS; ROOT_PREFIX values of 60 .. 3000 bytes with files in the vendor, /run and /etc layer below them; PARSING_DIRS lists of 2..12 directories of 300..2000 bytes each (up to 8400 bytes as a whole) with a drop-in in every one. The field carries distinct head and tail markers; Envelope!TLong requires out_len = len and both markers (names beyond NAME_MAX / PATH_MAX: an error code, no crash). Every kind once more at 64 Ki and 1 Mi on a thread with a 256 KiB stack (uninstrumented build), plus 20 entries with two 10000-byte comments each, written and read back there. non-trivial = length >= BUFSIZ-2." % (330 if tier == "quick" else 1099, "" if tier == "quick" else ", around 2*BUFSIZ and 64 Ki", "1 Mi" if tier == "thorough" else "200000"),
            "samples": events[:3], "exhaustive": True,
            "trusted_base": ["gcc ASan/UBSan", "TLC 1.8.0 (Envelope!TLong)", "drv.c longprobe/longname"]}
     return cov
